@@ -1233,6 +1233,88 @@ func TestC18VerifierEquiv(t *testing.T) {
 			}
 		})
 	})
+	// The exported Verifier embeds rsa.PSSOptions: every documented form of the options (explicit salt lengths,
+	// PSSSaltLengthEqualsHash, PSSSaltLengthAuto; SHA-256/384/512) must give the verdict of crypto/rsa.VerifyPSS
+	// under the same options, on signatures made independently by crypto/rsa.SignPSS with a matching or a
+	// non-matching salt length (and on altered ones).
+	t.Run("options", func(t *testing.T) {
+		vlib.Check(t, vlib.N(400, 1200), func(t *rapid.T) {
+			sub := "verify-equiv/blindrsa-options"
+			k := drawKey(t, ks, false)
+			pk := &k.key.PublicKey
+			h := rapid.SampledFrom([]crypto.Hash{crypto.SHA256, crypto.SHA384, crypto.SHA384, crypto.SHA512}).Draw(t, "hash")
+			forms := []int{0, 20, 32, 48, 64, rsa.PSSSaltLengthEqualsHash, rsa.PSSSaltLengthAuto}
+			vOpt := rapid.SampledFrom(forms).Draw(t, "verifierSaltLength")
+			emLen := (k.bits - 1 + 7) / 8
+			maxSalt := emLen - 2 - h.Size()
+			// the signer's salt length: the one the verifier expects (70 %) or another documented form
+			sOpt := vOpt
+			if rapid.IntRange(0, 9).Draw(t, "otherSalt") < 3 {
+				sOpt = rapid.SampledFrom(forms).Draw(t, "signerSaltLength")
+			}
+			eff := sOpt
+			if sOpt == rsa.PSSSaltLengthEqualsHash {
+				eff = h.Size()
+			}
+			if sOpt != rsa.PSSSaltLengthAuto && eff > maxSalt {
+				sOpt = rsa.PSSSaltLengthAuto // does not fit this key: longest salt instead
+			}
+			msg := equivMsg(t, sub)
+			d := digest(h, msg)
+			sig, err := rsa.SignPSS(vlib.DrawReader(t, "signpss"), k.key, h, d, &rsa.PSSOptions{SaltLength: sOpt, Hash: h})
+			if err != nil {
+				t.Fatalf("crypto/rsa.SignPSS: %v", err)
+			}
+			alt := "none"
+			if rapid.IntRange(0, 5).Draw(t, "alter") == 0 {
+				a := drawAlteration(t, sig, k.key.N, "oalt")
+				if a.data != nil {
+					alt, sig = strings.SplitN(a.kind, "@", 2)[0], a.data
+				}
+			}
+			ver, err := blindrsa.NewVerifier(rapid.SampledFrom(variants).Draw(t, "variant"), pk)
+			if err != nil {
+				t.Fatalf("NewVerifier: %v", err)
+			}
+			ver.PSSOptions = rsa.PSSOptions{SaltLength: vOpt, Hash: h}
+			vlib.Eval(sub)
+			vlib.Class(sub, fmt.Sprintf("verifier-salt=%d", vOpt))
+			vlib.Class(sub, fmt.Sprintf("hash=%v", h))
+			vlib.Class(sub, keyClass(k))
+			var cerr error
+			if p, stk := vlib.Catch(func() { cerr = ver.Verify(msg, sig) }); p != nil {
+				vlib.Report(t, "C18/verify-equiv/blindrsa-options/panic/"+vlib.PanicClass(p), fmt.Sprintf("key=%s hash=%v verifier SaltLength=%d signer SaltLength=%d alt=%s: %v\n%s", k.name, h, vOpt, sOpt, alt, p, stk))
+				return
+			}
+			gerr := rsa.VerifyPSS(pk, h, d, sig, &rsa.PSSOptions{SaltLength: vOpt, Hash: h})
+			if (cerr == nil) != (gerr == nil) {
+				cls := "accepts-what-crypto-rsa-rejects"
+				if cerr != nil {
+					cls = "rejects-what-crypto-rsa-accepts"
+				}
+				form := "explicit-length"
+				switch vOpt {
+				case rsa.PSSSaltLengthEqualsHash:
+					form = "PSSSaltLengthEqualsHash"
+				case rsa.PSSSaltLengthAuto:
+					form = "PSSSaltLengthAuto"
+				}
+				key := "C18/verify-equiv/blindrsa-options/" + cls + "/" + form
+				if alt == "sig+N" && cerr == nil {
+					key = keyNotReduced
+				}
+				if vlib.Report(t, key, fmt.Sprintf("key=%s hash=%v Verifier.PSSOptions.SaltLength=%d, signature by crypto/rsa.SignPSS with SaltLength=%d, alt=%s, msg=%x sig=%x: circl err=%v, crypto/rsa err=%v", k.name, h, vOpt, sOpt, alt, msg, sig, cerr, gerr)) {
+					return
+				}
+			}
+			verdict := "reject"
+			if gerr == nil {
+				verdict = "accept"
+			}
+			vlib.Class(sub, "verdict="+verdict)
+			vlib.NonTrivial(sub, "options-form", []byte(k.name), []byte(h.String()), []byte{byte(vOpt), byte(sOpt)}, msg, sig)
+		})
+	})
 	t.Run("pbrsa", func(t *testing.T) {
 		vlib.Check(t, vlib.N(700, 1800), func(t *rapid.T) {
 			k := drawKey(t, ks, true)
